@@ -24,6 +24,20 @@ type body struct {
 	run    func(n int, p tp.ThreadPool) ([]float64, error)
 }
 
+// reuseFirst: when set, every body first runs its estimation step once sequentially on the
+// SAME estimator object and then with the pool under test (per-thread state sized or
+// initialised by an earlier use with another pool size must not leak into the next use).
+var reuseFirst bool
+
+func twice(p tp.ThreadPool, f func(q tp.ThreadPool) error) error {
+	if reuseFirst {
+		if err := f(tp.ThreadPool{}); err != nil {
+			return err
+		}
+	}
+	return f(p)
+}
+
 func stdSizes(T int) []int {
 	m := map[int]bool{}
 	r := []int{}
@@ -82,7 +96,7 @@ func scalarBody(name string, mk func() (ScalarEstimator, error), data func(int) 
 		if weighted {
 			g = logWeights(n)
 		}
-		if err := e.EstimateOnData(x, g, p); err != nil {
+		if err := twice(p, func(q tp.ThreadPool) error { return e.EstimateOnData(x, g, q) }); err != nil {
 			return nil, err
 		}
 		d, err := e.GetEstimate()
@@ -150,7 +164,7 @@ func bodies() []body {
 		for i := 0; i < n; i++ {
 			xs = append(xs, NewDenseFloat64Vector([]float64{d[i], d[(i+3)%11]}))
 		}
-		if err := e.EstimateOnData(xs, nil, p); err != nil {
+		if err := twice(p, func(q tp.ThreadPool) error { return e.EstimateOnData(xs, nil, q) }); err != nil {
 			return nil, err
 		}
 		est, err := e.GetEstimate()
@@ -177,7 +191,7 @@ func bodies() []body {
 		for i := 0; i < n; i++ {
 			xs = append(xs, NewDenseFloat64Vector([]float64{d[i], c[i]}))
 		}
-		if err := e.EstimateOnData(xs, nil, p); err != nil {
+		if err := twice(p, func(q tp.ThreadPool) error { return e.EstimateOnData(xs, nil, q) }); err != nil {
 			return nil, err
 		}
 		est, err := e.GetEstimate()
@@ -204,7 +218,7 @@ func bodies() []body {
 		for i := 0; i < n; i++ {
 			xs = append(xs, NewDenseFloat64Vector([]float64{d[i], d[(i+4)%11] * d[i]}))
 		}
-		if err := e.EstimateOnData(xs, nil, p); err != nil {
+		if err := twice(p, func(q tp.ThreadPool) error { return e.EstimateOnData(xs, nil, q) }); err != nil {
 			return nil, err
 		}
 		est, err := e.GetEstimate()
@@ -217,7 +231,7 @@ func bodies() []body {
 	// EM: scalar mixtures (nested pool use: component estimation jobs call Estimate(gamma, p))
 	mix := func(name string, mk func() ([]ScalarEstimator, error), data func(int) []float64, steps int) body {
 		return body{name: fmt.Sprintf("scalar.Mixture[%s;steps=%d]", name, steps), nested: true,
-			sizes: func(T int) []int { return []int{T + 1, 2*T + 1} },
+			sizes: func(T int) []int { return []int{2, T + 1, 2*T + 1} },
 			run: func(n int, p tp.ThreadPool) ([]float64, error) {
 				es, err := mk()
 				if err != nil {
@@ -233,7 +247,7 @@ func bodies() []body {
 				if err != nil {
 					return nil, err
 				}
-				if err := e.EstimateOnData(NewDenseFloat64Vector(data(n)), nil, p); err != nil {
+				if err := twice(p, func(q tp.ThreadPool) error { return e.EstimateOnData(NewDenseFloat64Vector(data(n)), nil, q) }); err != nil {
 					return nil, err
 				}
 				est, err := e.GetEstimate()
@@ -294,7 +308,7 @@ func bodies() []body {
 				for i := 0; i < nseq; i++ {
 					xs = append(xs, NewDenseFloat64Vector(seqs[i]))
 				}
-				if err := e.EstimateOnData(xs, nil, p); err != nil {
+				if err := twice(p, func(q tp.ThreadPool) error { return e.EstimateOnData(xs, nil, q) }); err != nil {
 					return nil, err
 				}
 				est, err := e.GetEstimate()
@@ -305,6 +319,45 @@ func bodies() []body {
 			}}
 	}
 	bs = append(bs, hmm(1, 1), hmm(2, 1), hmm(2, 2), hmm(3, 2))
+	// fewer observations than threads (one sequence of length 1 or 2), emission
+	// estimators that are clones of one prototype
+	tiny := func(length, steps int, clones bool) body {
+		return body{name: fmt.Sprintf("vector.Hmm[Categorical;1 seq of length %d;steps=%d;cloned-emissions=%v]", length, steps, clones), nested: true,
+			sizes: func(T int) []int { return []int{1} },
+			run: func(n int, p tp.ThreadPool) ([]float64, error) {
+				pi := NewDenseFloat64Vector([]float64{0.5, 0.5})
+				tr := NewDenseFloat64Matrix([]float64{0.75, 0.25, 0.5, 0.5}, 2, 2)
+				e1, err := scalarEstimator.NewCategoricalEstimator([]float64{0.25, 0.75})
+				if err != nil {
+					return nil, err
+				}
+				var e2 ScalarEstimator
+				if clones {
+					e2 = e1.CloneScalarEstimator()
+					if err := e2.SetParameters(NewDenseFloat64Vector([]float64{math.Log(0.75), math.Log(0.25)})); err != nil {
+						return nil, err
+					}
+				} else {
+					if e2, err = scalarEstimator.NewCategoricalEstimator([]float64{0.75, 0.25}); err != nil {
+						return nil, err
+					}
+				}
+				e, err := vectorEstimator.NewHmmEstimator(pi, tr, nil, nil, nil, []ScalarEstimator{e1, e2}, 1e-8, steps)
+				if err != nil {
+					return nil, err
+				}
+				xs := []ConstVector{NewDenseFloat64Vector([]float64{1, 0}[:length])}
+				if err := twice(p, func(q tp.ThreadPool) error { return e.EstimateOnData(xs, nil, q) }); err != nil {
+					return nil, err
+				}
+				est, err := e.GetEstimate()
+				if err != nil {
+					return nil, err
+				}
+				return params(est.GetParameters()), nil
+			}}
+	}
+	bs = append(bs, tiny(1, 1, false), tiny(2, 1, false), tiny(2, 2, true))
 	bs = append(bs, body{name: "vector.Hmm[3 states->2 emissions;start={0};final={2};chunk=3;steps=2]", nested: true,
 		sizes: func(T int) []int { return []int{2} },
 		run: func(n int, p tp.ThreadPool) ([]float64, error) {
@@ -330,7 +383,7 @@ func bodies() []body {
 			}
 			e.ChunkSize = 3
 			xs := []ConstVector{NewDenseFloat64Vector([]float64{1, 1, 0, 1, 0, 0}), NewDenseFloat64Vector([]float64{0, 0, 1, 1})}
-			if err := e.EstimateOnData(xs, nil, p); err != nil {
+			if err := twice(p, func(q tp.ThreadPool) error { return e.EstimateOnData(xs, nil, q) }); err != nil {
 				return nil, err
 			}
 			est, err := e.GetEstimate()
@@ -378,7 +431,7 @@ func bodies() []body {
 			for i := 0; i < n; i++ {
 				xs = append(xs, NewDenseFloat64Vector([]float64{d[i], d[(i+3)%11]}))
 			}
-			if err := e.EstimateOnData(xs, nil, p); err != nil {
+			if err := twice(p, func(q tp.ThreadPool) error { return e.EstimateOnData(xs, nil, q) }); err != nil {
 				return nil, err
 			}
 			est, err := e.GetEstimate()
@@ -423,7 +476,7 @@ func bodies() []body {
 				NewDenseFloat64Matrix([]float64{1, 1, 0, 1}, 4, 1),
 				NewDenseFloat64Matrix([]float64{0, 0, 1}, 3, 1),
 			}
-			if err := e.EstimateOnData(xs, nil, p); err != nil {
+			if err := twice(p, func(q tp.ThreadPool) error { return e.EstimateOnData(xs, nil, q) }); err != nil {
 				return nil, err
 			}
 			est, err := e.GetEstimate()
@@ -453,8 +506,12 @@ func bodies() []body {
 			if err != nil {
 				return nil, err
 			}
-			m2, err := mkmix([]float64{0.75, 0.25}, []float64{0.5, 0.5})
-			if err != nil {
+			// the second emission estimator is a CLONE of the first (the usual way to
+			// build several states from one prototype); clones must not share state
+			m2 := m1.CloneScalarEstimator()
+			if m3, err := mkmix([]float64{0.75, 0.25}, []float64{0.5, 0.5}); err != nil {
+				return nil, err
+			} else if err := m2.SetParameters(m3.GetParameters()); err != nil {
 				return nil, err
 			}
 			pi := NewDenseFloat64Vector([]float64{0.5, 0.5})
@@ -470,7 +527,7 @@ func bodies() []body {
 				return nil, err
 			}
 			xs := []ConstVector{NewDenseFloat64Vector([]float64{1, 1, 0, 1}), NewDenseFloat64Vector([]float64{0, 0, 1})}
-			if err := e.EstimateOnData(xs, nil, p); err != nil {
+			if err := twice(p, func(q tp.ThreadPool) error { return e.EstimateOnData(xs, nil, q) }); err != nil {
 				return nil, err
 			}
 			est, err := e.GetEstimate()
@@ -482,7 +539,7 @@ func bodies() []body {
 
 	// discrete mixture over summarised data (counts), driven through SetData + Estimate
 	bs = append(bs, body{name: "scalar.DiscreteMixture[Poisson,Poisson;summarised;steps=2]", nested: true,
-		sizes: func(T int) []int { return []int{T + 1, 2*T + 1} },
+		sizes: func(T int) []int { return []int{2, T + 1, 2*T + 1} },
 		run: func(n int, p tp.ThreadPool) ([]float64, error) {
 			a, err := scalarEstimator.NewPoissonEstimator(0.5)
 			if err != nil {
@@ -506,7 +563,7 @@ func bodies() []body {
 			if err := e.SetData(x, x.Dim()); err != nil {
 				return nil, err
 			}
-			if err := e.Estimate(nil, p); err != nil {
+			if err := twice(p, func(q tp.ThreadPool) error { return e.Estimate(nil, q) }); err != nil {
 				return nil, err
 			}
 			est, err := e.GetEstimate()
@@ -558,7 +615,7 @@ func bodies() []body {
 			for i := 0; i < n; i++ {
 				xs = append(xs, NewDenseFloat64Matrix([]float64{d[i], d[(i+3)%11]}, 2, 1))
 			}
-			if err := e.EstimateOnData(xs, nil, p); err != nil {
+			if err := twice(p, func(q tp.ThreadPool) error { return e.EstimateOnData(xs, nil, q) }); err != nil {
 				return nil, err
 			}
 			est, err := e.GetEstimate()
@@ -584,7 +641,7 @@ func bodies() []body {
 			for i := 0; i < n; i++ {
 				xs = append(xs, NewDenseFloat64Vector(rows[i]))
 			}
-			if err := e.EstimateOnData(xs, nil, p); err != nil {
+			if err := twice(p, func(q tp.ThreadPool) error { return e.EstimateOnData(xs, nil, q) }); err != nil {
 				return nil, err
 			}
 			return params(e.GetParameters()), nil
